@@ -442,4 +442,16 @@ def rule_roles(repo, rep, aa):
                 rep.check(all(nm[0] == want for nm in names) and names, "C15-e", f"{AA}:{fn}", norm(s), "height/width computed from the other axis' intermediate")
     f = aa.func("_get_ifm_blocksize")
     rep.check(norm(f.body[-1]) == "return Shape4D(1, height, width, ofm_block.depth)", "C15-e", f"{AA}:_get_ifm_blocksize", "IFM block = Shape4D(1, height, width, depth)", norm(f.body[-1]))
-    rep.floor("C15-e", 6)
+    # axis-named parameters receive values of their axis at every call (kernel strides / dilations of the shared to_kernel helper included)
+    from .shared import call_axis_agreement
+
+    call_axis_agreement(repo, rep, "C15-e")
+    # tables keyed by an enum member mirror the key in the index they read: {K: table[K]}
+    af = repo.mod("architecture_features")
+    for d in [x for x in ast.walk(af.tree) if isinstance(x, ast.Dict)]:
+        for k, v in zip(d.keys, d.values):
+            if isinstance(k, ast.Attribute) and isinstance(v, ast.Subscript) and isinstance(v.slice, ast.Attribute) and norm(k.value) == norm(v.slice.value):
+                fnn = af.enclosing_function(d)
+                rep.check(norm(k) == norm(v.slice), "C15-c", f"ethosu/vela/architecture_features.py:{af.qualname_of(fnn) if fnn else '<module>'}", f"granule table entry {norm(k)} reads {norm(v.value)}[{norm(k)}]",
+                          f"reads {norm(v)}: the {norm(k)} partition is rounded to another element type's bank granule")
+    rep.floor("C15-e", 40)
